@@ -97,10 +97,10 @@ pub fn strategy(thorough: bool) -> BoxedStrategy<Case> {
         .prop_flat_map(move |(participants, reuse_topic_names)| {
             let p = 0..participants;
             let op = prop_oneof![
-                10 => (p.clone(), kind_strategy(), any::<u16>(), any::<u16>()).prop_map(|(p, kind, a, b)| Op::Create { p, kind, a, b }),
-                8 => (p.clone(), kind_strategy(), any::<u16>(), prop_oneof![5 => Just(false), 1 => Just(true)], any::<u16>())
+                20 => (p.clone(), kind_strategy(), any::<u16>(), any::<u16>()).prop_map(|(p, kind, a, b)| Op::Create { p, kind, a, b }),
+                16 => (p.clone(), kind_strategy(), any::<u16>(), prop_oneof![5 => Just(false), 1 => Just(true)], any::<u16>())
                     .prop_map(|(p, kind, sel, wrong_parent, via)| Op::Delete { p, kind, sel, wrong_parent, via }),
-                5 => (p.clone(), kind_strategy(), any::<u16>()).prop_map(|(p, kind, sel)| Op::Operate { p, kind, sel }),
+                8 => (p.clone(), kind_strategy(), any::<u16>()).prop_map(|(p, kind, sel)| Op::Operate { p, kind, sel }),
                 1 => p.clone().prop_map(|p| Op::DeleteContained { p }),
                 1 => p.clone().prop_map(|p| Op::DeleteParticipant { p }),
                 1 => p.clone().prop_map(|p| Op::ParticipantGetQos { p }),
